@@ -34,6 +34,7 @@ func init() {
 
 func runC13(c *Ctx) {
 	c13R1(c)
+	c13SuccessNeedsExchange(c)
 	c13R2(c)
 	c13Seek(c)
 	c13R3(c)
@@ -294,6 +295,103 @@ func c13R1(c *Ctx) {
 		}
 		c.Violation(R1, key, bad.Ret.Pos(), fmt.Sprintf("after the %s exchange a path reaches the return at %s whose error is %s without having established resp.StatusCode == %s: an unexpected status would be reported as success",
 			role, c.P.Pos(bad.Ret.Pos()), describe(bad.Val), c13Ints(allowed)))
+	}
+}
+
+// c13AlwaysExchanges: every possibly-nil error return of fn lies behind an HTTP
+// exchange: a send site of fn, or the nil-error edge (or the returned verdict)
+// of an in-module callee that always exchanges.
+func c13AlwaysExchanges(fn *ssa.Function, depth int, memo map[*ssa.Function]int) bool {
+	if v, ok := memo[fn]; ok {
+		return v == 1
+	}
+	memo[fn] = 0 // recursion guard: not (yet) known
+	ok := c13SuccessWithoutExchange(fn, depth, memo) == nil
+	if ok {
+		memo[fn] = 1
+	}
+	return ok
+}
+
+// c13SuccessWithoutExchange returns a possibly-nil error return of fn that can
+// be reached from entry without any exchange (nil if there is none).
+func c13SuccessWithoutExchange(fn *ssa.Function, depth int, memo map[*ssa.Function]int) *c13Atom {
+	if ErrResultIndex(fn.Signature) < 0 {
+		return nil
+	}
+	ct := newCut().Calls(c13SendSites(fn))
+	direct := map[ssa.Value]bool{}
+	if depth > 0 {
+		for _, ci := range Calls(fn, func(string) bool { return true }) {
+			call, isCall := ci.(*ssa.Call)
+			h := StaticCallee(ci)
+			if !isCall || h == nil || h == fn || !inModule(h) || len(h.Blocks) == 0 || ErrResultIndex(h.Signature) < 0 {
+				continue
+			}
+			if !c13AlwaysExchanges(h, depth-1, memo) {
+				continue
+			}
+			if e := ErrOf(call); e != nil {
+				al := Aliases(e)
+				nilE, _, _ := NilTests(fn, al)
+				ct.Edges(nilE...)
+				for a := range al {
+					direct[a] = true
+				}
+			}
+		}
+	}
+	return c13SuccessEscapes(fn, fn.Blocks[0], 0, ct, direct)
+}
+
+// c13SuccessNeedsExchange: the state-changing / transfer operations of the two
+// remote stores report success only after talking to the registry.
+func c13SuccessNeedsExchange(c *Ctx) {
+	const R = "C13.R1.success-needs-exchange"
+	c.Expect(R, 7)
+	ops := map[string]bool{"Mount": true, "Push": true, "PushReference": true, "Delete": true, "Tag": true}
+	memo := map[*ssa.Function]int{}
+	n := 0
+	for _, acc := range []string{"Blobs", "Manifests"} {
+		get := c.P.Fn(c13PkgRemote, "Repository."+acc)
+		if get == nil {
+			c.LostAnchor(R, "~/registry/remote.Repository."+acc)
+			continue
+		}
+		var T *types.Named
+		for _, a := range RetAtoms(get, 0) {
+			if mi, ok := a.Val.(*ssa.MakeInterface); ok {
+				if p, ok := types.Unalias(mi.X.Type()).(*types.Pointer); ok {
+					T, _ = types.Unalias(p.Elem()).(*types.Named)
+				}
+			}
+		}
+		if T == nil {
+			c.LostAnchor(R, "concrete store type returned by Repository."+acc)
+			continue
+		}
+		ms := types.NewMethodSet(types.NewPointer(T))
+		for i := 0; i < ms.Len(); i++ {
+			obj, isFn := ms.At(i).Obj().(*types.Func)
+			if !isFn || !ops[obj.Name()] {
+				continue
+			}
+			m := c.P.SSA.FuncValue(obj)
+			if m == nil || len(m.Blocks) == 0 {
+				continue
+			}
+			n++
+			bad := c13SuccessWithoutExchange(m, 4, memo)
+			ok := bad == nil
+			detail := "every success path performs at least one HTTP exchange with the registry (here or in a helper that always does)"
+			if !ok {
+				detail = fmt.Sprintf("the return at %s (error %s) reports success without any request to the registry: the result cannot reflect the registry's state", c.P.Pos(bad.Ret.Pos()), describe(bad.Val))
+			}
+			c.Check(R, FnName(m)+"|exchange-before-success", m.Pos(), ok, detail)
+		}
+	}
+	if n == 0 {
+		c.LostAnchor(R, "state-changing operations (Mount/Push/PushReference/Delete/Tag) of the remote stores")
 	}
 }
 
@@ -2000,6 +2098,10 @@ func c13Seek(c *Ctx) {
 }
 
 var c13Mutants = []Mutant{
+	{Name: "mount-same-repository-is-noop", File: "registry/remote/repository.go",
+		Old:    "\t// We also need pull access to the source repo.\n\tfromRef := s.repo.Reference",
+		New:    "\tif fromRepo == s.repo.Reference.Repository {\n\t\treturn nil\n\t}\n\t// We also need pull access to the source repo.\n\tfromRef := s.repo.Reference",
+		Expect: "C13.R1.success-needs-exchange"},
 	{Name: "selector-ignores-option", File: "registry/remote/repository.go",
 		Old: "\tif isManifest(r.ManifestMediaTypes, desc) {", New: "\tif isManifest(nil, desc) {", Expect: "C13.R3"},
 	{Name: "default-list-always-consulted", File: "registry/remote/manifest.go",
